@@ -77,6 +77,200 @@ Proof.
 Qed.
 Print Assumptions C05_minus_plus.
 
+(* ---- a whole chain of conversions, functionally: a record holding variant P, carried through ANY number of
+   conversions (each complete or uninit-then-filled, removed data handed back or not) with ANY reads and writes in
+   between, ends as a record that holds the last variant with the values `uchain_vals` computes from the requests
+   alone: per conversion an added field takes the supplied value (the written one if it was left uninitialised),
+   every other field keeps its value; a write replaces the value of its field only.  No step faults.
+   In particular a field that no conversion adds and no write touches reads back what it held at the start, however
+   many variants it has been carried through (C05_chain_untouched). *)
+From Truc.Proofs Require Import ChainU.
+Theorem C05_chain_values : forall ds TI rt A cap, rt_ok rt = true ->
+  forall (stages : list ustage) P vals b,
+  layout_ok ds TI A cap P -> uchain_ok ds TI A cap P stages -> holds ds TI cap A P vals b ->
+  exists bf d r, uchain_run ds TI rt A cap b stages = Ok (bf, d, r) /\
+    holds ds TI cap A (ulast_data P stages) (uchain_vals ds vals stages) bf /\
+    (layout_ok ds TI A cap (ulast_data P stages) ->
+     forall i m, In i (ulast_data P stages) -> op_get ds TI rt bf i m = Ok (Some (uchain_vals ds vals stages i))).
+Proof.
+  intros ds TI rt A cap RT stages P vals b LP Hc H.
+  destruct (uchain_values ds TI rt A cap RT stages P vals b LP Hc H) as (bf & d & r & E & Hf).
+  exists bf, d, r. split; [exact E|]. split; [exact Hf|].
+  intros LL i m Hi. exact (get_holds ds TI rt A cap RT _ LL _ bf i m Hf Hi).
+Qed.
+Print Assumptions C05_chain_values.
+
+Theorem C05_chain_untouched : forall ds (stages : list ustage) vals i,
+  Forall (fun u => ~ In i (s_plus (u_s u)) /\
+                   forall o, In o (s_ops (u_s u)) -> match o with LSet j _ => j <> i | LGet _ _ => True end) stages ->
+  uchain_vals ds vals stages i = vals i.
+Proof. intros ds stages vals i. exact (uchain_vals_untouched ds i stages vals). Qed.
+Print Assumptions C05_chain_untouched.
+
+(* on a concrete chain (variant 0 = {a: droppable at 0}; variant 1 removes a, adds c - droppable, reusing a's bytes -
+   and u - plain, allow_uninit; uninit conversion, u written, then c overwritten): the machine's reads agree with the
+   closed form *)
+Definition exc_ds : defs := [mkDatum 0 1 24 8 false 0; mkDatum 1 2 8 8 true 24; mkDatum 2 1 24 8 false 0].
+Definition exc_ti (t : nat) : tinfo := if Nat.eqb t 1 then mkTi 24 8 true else mkTi 8 8 false.
+Definition exc_stage : ustage :=
+  mkUStage (mkStage [2; 1]%nat [0%nat] [2; 1]%nat [] false (fun i => (200 + i)%nat) [LSet 2 9; LGet 1 false]%nat 1 0) true (fun _ => 55%nat).
+Example C05_chain_nonvacuous :
+  match op_new exc_ds exc_ti rt_fixed 8 32 0 [0%nat] (fun i => (100 + i)%nat) with
+  | Ok (ORecord r, _) =>
+      match uchain_run exc_ds exc_ti rt_fixed 8 32 r [exc_stage] with
+      | Ok (bf, _, _) => Some (op_get exc_ds exc_ti rt_fixed bf 2 false, op_get exc_ds exc_ti rt_fixed bf 1 true)
+      | _ => None
+      end
+  | _ => None
+  end = Some (Ok (Some 9%nat), Ok (Some 55%nat)) /\
+  uchain_vals exc_ds (fun i => (100 + i)%nat) [exc_stage] 2%nat = 9%nat /\
+  uchain_vals exc_ds (fun i => (100 + i)%nat) [exc_stage] 1%nat = 55%nat.
+Proof. repeat split; vm_compute; reflexivity. Qed.
+
+(* ---- the conversion applied to a whole Vec, in place (the library's main use; C03 "vectors of them can be converted
+   in place", C08).  `convert_vec_in_place(v, |record, _| Converted(RecordQ::from((record, plus_k))))` on a Vec of
+   records that hold variant P: for EVERY vector length, the function (two cursors over one buffer, model VecConv;
+   `flags_ok` is what C08_current establishes for convert.rs) calls the generated conversion (model Gen run on the
+   machine Exec) once per element, in order, and returns a vector in which the k-th record holds variant Q with the
+   carried-over values of the k-th input and the values supplied for it; the removed droppable fields of every element
+   are destroyed exactly once, by the conversions; the function itself drops nothing and releases nothing (its log
+   consists of the calls only, so the result is the input's allocation); nothing faults.  Both record types have one
+   size and alignment (sz, al): C03b. *)
+From Truc.Model Require VecConv.
+From Truc.Proofs Require VecConvThms VecRecords.
+Theorem C05_vec_in_place : forall ds TI rt A cap, rt_ok rt = true ->
+  forall P Q minus plus carried,
+  layout_ok ds TI A cap P -> layout_ok ds TI A cap Q ->
+  Permutation P (minus ++ carried) -> Permutation Q (plus ++ carried) ->
+  forall v prev pv fl (sz al : N) (inputs : list ((nat -> nat) * buf)),
+  VecConv.flags_ok fl = true ->
+  Forall (fun x => holds ds TI cap A P (fst x) (snd x)) inputs ->
+  exists outs destroyed calls,
+    VecConv.run buf buf unit fault (nat * list nat)
+      (VecRecords.rconv ds TI rt A cap minus plus v prev pv) sz al sz al fl (map snd inputs) (0%nat, []) =
+      (VecConv.Done outs (length inputs, destroyed), calls) /\
+    Forall (VecConvThms.is_call buf buf) calls /\
+    VecConvThms.call_inputs buf buf calls = map snd inputs /\
+    VecRecords.outs_ok ds TI A cap Q plus pv 0%nat inputs outs /\
+    Permutation destroyed (VecRecords.removed_tokens ds TI minus inputs).
+Proof.
+  intros ds TI rt A cap RT P Q minus plus carried LP LQ PP PQ v prev pv fl sz al inputs OK HF.
+  exact (VecRecords.vec_of_records ds TI rt A cap RT P Q minus plus carried LP LQ PP PQ v prev pv fl sz al inputs OK HF).
+Qed.
+Print Assumptions C05_vec_in_place.
+
+(* ... and when the converter gives up at element kf (it destroys that element - the generated Drop of P - and returns
+   an error, which in this model carries everything the converter destroyed so far): the function has called the
+   conversion once per earlier element; it then drops exactly the records already converted (each holds Q with its own
+   values, so its generated Drop destroys each of its droppable values once: C06_drop) and the inputs not yet reached
+   (untouched: they still hold P), releases the buffer once, and returns that error; what the converter destroyed is the
+   removed droppable fields of the converted elements and the droppable fields of the failing one, each once (C09 for a
+   vector of generated records: nothing leaks, nothing is destroyed twice). *)
+Theorem C05_vec_in_place_fails : forall ds TI rt A cap, rt_ok rt = true ->
+  forall P Q minus plus carried,
+  layout_ok ds TI A cap P -> layout_ok ds TI A cap Q ->
+  Permutation P (minus ++ carried) -> Permutation Q (plus ++ carried) ->
+  forall v prev pv fl (sz al : N) pre valsf bf post,
+  VecConv.flags_ok fl = true ->
+  Forall (fun x => holds ds TI cap A P (fst x) (snd x)) (pre ++ (valsf, bf) :: post) ->
+  exists outs_pre dconv calls,
+    VecConv.run buf buf (list nat) fault (nat * list nat)
+      (VecRecords.rconvf ds TI rt A cap P minus plus v prev pv (length pre)) sz al sz al fl
+      (map snd (pre ++ (valsf, bf) :: post)) (0%nat, []) =
+      (VecConv.Failed (VecConv.FErr dconv),
+       calls ++ map (@VecConv.DropU buf buf) outs_pre ++ map (@VecConv.DropT buf buf) (map snd post) ++ [VecConv.FreeBuf]) /\
+    Forall (VecConvThms.is_call buf buf) calls /\
+    VecRecords.outs_ok ds TI A cap Q plus pv 0%nat pre outs_pre /\
+    Permutation dconv (VecRecords.removed_tokens ds TI minus pre ++ map valsf (filter (dr ds TI) P)).
+Proof.
+  intros ds TI rt A cap RT P Q minus plus carried LP LQ PP PQ v prev pv fl sz al pre valsf bf post OK HF.
+  exact (VecRecords.vec_of_records_fails ds TI rt A cap RT P Q minus plus carried LP LQ PP PQ v prev pv (length pre)
+           fl sz al pre valsf bf post OK eq_refl HF).
+Qed.
+Print Assumptions C05_vec_in_place_fails.
+
+(* ... globally: what the converter destroyed (dconv), plus what the generated Drop destroys for each record the function
+   drops - the converted ones (douts) and the inputs not reached (dposts) - is, as a multiset, everything the input
+   records owned plus the values supplied to the conversions that took place: each exactly once *)
+Theorem C05_vec_in_place_fails_accounts : forall ds TI rt A cap, rt_ok rt = true ->
+  forall P Q minus plus carried,
+  layout_ok ds TI A cap P -> layout_ok ds TI A cap Q ->
+  Permutation P (minus ++ carried) -> Permutation Q (plus ++ carried) ->
+  forall v prev pv fl (sz al : N) pre valsf bf post,
+  VecConv.flags_ok fl = true ->
+  Forall (fun x => holds ds TI cap A P (fst x) (snd x)) (pre ++ (valsf, bf) :: post) ->
+  exists outs_pre dconv calls douts dposts,
+    VecConv.run buf buf (list nat) fault (nat * list nat)
+      (VecRecords.rconvf ds TI rt A cap P minus plus v prev pv (length pre)) sz al sz al fl
+      (map snd (pre ++ (valsf, bf) :: post)) (0%nat, []) =
+      (VecConv.Failed (VecConv.FErr dconv),
+       calls ++ map (@VecConv.DropU buf buf) outs_pre ++ map (@VecConv.DropT buf buf) (map snd post) ++ [VecConv.FreeBuf]) /\
+    Forall (VecConvThms.is_call buf buf) calls /\
+    VecRecords.drop_all ds TI rt A cap prev Q outs_pre = Ok douts /\
+    VecRecords.drop_all ds TI rt A cap prev P (map snd post) = Ok dposts /\
+    Permutation (dconv ++ douts ++ dposts)
+                (VecRecords.owned_tokens ds TI P (pre ++ (valsf, bf) :: post) ++ VecRecords.supplied ds TI plus pv 0%nat pre).
+Proof.
+  intros ds TI rt A cap RT P Q minus plus carried LP LQ PP PQ v prev pv fl sz al pre valsf bf post OK HF.
+  exact (VecRecords.vec_of_records_fails_accounts ds TI rt A cap RT P Q minus plus carried LP LQ PP PQ v prev pv (length pre)
+           fl sz al pre valsf bf post OK eq_refl HF).
+Qed.
+Print Assumptions C05_vec_in_place_fails_accounts.
+
+(* ... and a pipeline: the same vector taken through ANY number of variants, one convert_vec_in_place per step (each
+   step with its own removed / added fields and per-element supplied values): every step succeeds, the vector keeps its
+   length, and its k-th record holds the last variant with the values `pipeline_vals` computes from the requests alone *)
+Theorem C05_vec_pipeline : forall ds TI rt A cap, rt_ok rt = true ->
+  forall fl (sz al : N), VecConv.flags_ok fl = true ->
+  forall (stages : list VecRecords.vstage) P (inputs : list ((nat -> nat) * buf)),
+  layout_ok ds TI A cap P -> VecRecords.vstages_ok ds TI A cap P stages ->
+  Forall (fun x => holds ds TI cap A P (fst x) (snd x)) inputs ->
+  exists outs d,
+    VecRecords.pipeline ds TI rt A cap fl sz al (map snd inputs) stages = Some (outs, d) /\
+    length outs = length inputs /\
+    Forall (fun x => holds ds TI cap A (VecRecords.last_variant P stages) (fst x) (snd x))
+           (combine (VecRecords.pipeline_vals (map fst inputs) stages) outs).
+Proof. intros ds TI rt A cap RT. exact (VecRecords.pipeline_ok ds TI rt A cap RT). Qed.
+Print Assumptions C05_vec_pipeline.
+
+(* a concrete vector: two records {a: droppable 24 bytes at 0, n: plain 8 bytes at 24}; the conversion removes a and
+   adds c (droppable, reusing a's bytes); element k gets c = 500 + k *)
+Definition exv_ds : defs := [mkDatum 0 1 24 8 false 0; mkDatum 1 2 8 8 false 24; mkDatum 2 1 24 8 false 0].
+Definition exv_ti (t : nat) : tinfo := if Nat.eqb t 1 then mkTi 24 8 true else mkTi 8 8 false.
+Example C05_vec_in_place_nonvacuous :
+  match op_new exv_ds exv_ti rt_fixed 8 32 0 [0; 1]%nat (fun i => (100 + i)%nat),
+        op_new exv_ds exv_ti rt_fixed 8 32 0 [0; 1]%nat (fun i => (200 + i)%nat) with
+  | Ok (ORecord r1, _), Ok (ORecord r2, _) =>
+      match VecConv.run buf buf unit fault (nat * list nat)
+              (VecRecords.rconv exv_ds exv_ti rt_fixed 8 32 [0%nat] [2%nat] 1 0 (fun k _ => (500 + k)%nat))
+              32 8 32 8 VecConv.flags_fixed [r1; r2] (0%nat, []) with
+      | (VecConv.Done outs st, calls) =>
+          Some (st, length calls,
+                map (fun o => (op_get exv_ds exv_ti rt_fixed o 2 false, op_get exv_ds exv_ti rt_fixed o 1 false)) outs)
+      | _ => None
+      end
+  | _, _ => None
+  end = Some ((2%nat, [100; 200]%nat), 2%nat,
+              [(Ok (Some 500%nat), Ok (Some 101%nat)); (Ok (Some 501%nat), Ok (Some 201%nat))]).
+Proof. vm_compute. reflexivity. Qed.
+
+(* the same vector with the converter giving up at the second element: the first (converted) record is dropped by the
+   function, the buffer released, and the error lists what the converter destroyed: a of the first element (by its
+   conversion), a of the second (by the Drop of the failing element) *)
+Example C05_vec_in_place_fails_nonvacuous :
+  match op_new exv_ds exv_ti rt_fixed 8 32 0 [0; 1]%nat (fun i => (100 + i)%nat),
+        op_new exv_ds exv_ti rt_fixed 8 32 0 [0; 1]%nat (fun i => (200 + i)%nat) with
+  | Ok (ORecord r1, _), Ok (ORecord r2, _) =>
+      match VecConv.run buf buf (list nat) fault (nat * list nat)
+              (VecRecords.rconvf exv_ds exv_ti rt_fixed 8 32 [0; 1]%nat [0%nat] [2%nat] 1 0 (fun k _ => (500 + k)%nat) 1)
+              32 8 32 8 VecConv.flags_fixed [r1; r2] (0%nat, []) with
+      | (VecConv.Failed (VecConv.FErr d), log) => Some (d, length log)
+      | _ => None
+      end
+  | _, _ => None
+  end = Some ([100; 200]%nat, 4%nat).
+Proof. vm_compute. reflexivity. Qed.
+
 Theorem C05_current : rt_ok Runtime.exec_rt = true.
 Proof. reflexivity. Qed.
 
